@@ -646,10 +646,23 @@ func (g *graph) outputType() reflect.Type {
 	return g.expectedOutputType
 }
 
+// compilingKey carries the graphs whose compile is in progress up the call chain of the current compile.
+type compilingKey struct{}
+
 func (g *graph) compile(ctx context.Context, opt *graphCompileOptions) (*composableRunnable, error) {
 	if g.buildError != nil {
 		return nil, g.buildError
 	}
+
+	// a graph met again while its own nodes are being compiled is nested in itself, directly or through another
+	// graph: without this check the recursion ends in a stack overflow
+	inProgress, _ := ctx.Value(compilingKey{}).([]*graph)
+	for _, outer := range inProgress {
+		if outer == g {
+			return nil, errors.New("graph is nested in itself (directly or through another graph)")
+		}
+	}
+	ctx = context.WithValue(ctx, compilingKey{}, append(inProgress[:len(inProgress):len(inProgress)], g))
 
 	// get run type
 	runType := runTypePregel
